@@ -19,7 +19,8 @@ CONSTANTS MaxLeaves,    \* 1..3: leaves are a prefix of <<1, 2, 0>>
           MaxOps,       \* number of operation nodes
           Rate,         \* sequence of length MaxOps: per-mille of the menu appended at each level
           Seed,         \* salt of the sampling hash
-          Pures         \* subset of BOOLEAN: the pure flag given to every call of the program
+          Pures,        \* subset of BOOLEAN: the pure flag given to every call of the program
+          Mode          \* "grow": programs grown from the menus; "pairs": see PairMenu (MaxOps = 3, Rate unused)
 
 VARIABLES prog, info, hash, pure, out     \* info = Info(prog) and hash = ProgHash(prog), carried along (InfoOK)
 
@@ -38,12 +39,14 @@ SeqCode(xs) == IF Len(xs) = 0 THEN 0 ELSE IF Len(xs) = 1 THEN 1 + xs[1] ELSE IF 
                ELSE 100 + 81 * xs[1] + 9 * xs[2] + xs[3]
 OpNames == <<"const", "cont", "call", "getitem", "getattr", "meth", "bin", "un", "nout">>
 NmNames == <<"", "list", "tuple", "set", "dict", "dictk", "slice", "slice_to", "obj", "nt", "f1", "f2", "tup", "tag", "count",
-             "add", "sub", "mul", "floordiv", "lt", "neg", "invert", "x", "y", "a", "b">>
+             "add", "sub", "mul", "floordiv", "lt", "neg", "invert", "x", "y", "a", "b", "j", "k", "p", "q", "kk">>
 \* name -> position (constant functions, evaluated once)
 OpCode == [s \in Range(OpNames) |-> CHOOSE i \in DOMAIN OpNames : OpNames[i] = s]
 NmCode == [s \in Range(NmNames) |-> CHOOSE i \in DOMAIN NmNames : NmNames[i] = s]
 NodeCode(nd) == (OpCode[nd.op] * 977 + NmCode[nd.nm] * 131 + SeqCode(nd.xs) * 17 + SeqCode(nd.kx) * 5
                  + (IF nd.w THEN 3 ELSE 0) + nd.i * 7 + (IF nd.dkn = "" THEN 0 ELSE 11)
+                 + (IF Len(nd.kn) = 0 THEN 0 ELSE NmCode[nd.kn[1]] * 29 + Len(nd.kn) * 53)
+                 + (IF nd.pure /\ nd.op = "cont" THEN 23 ELSE 0)
                  + (IF nd.op = "const" /\ nd.v.t = "int" THEN nd.v.v ELSE 0)) % P1
 Mix(a, b) == LET x == ((a + 1) * 7919 + b * 104 + 13) % P1
                  y == (x * ((b % 211) + 17) + a) % P1
@@ -53,12 +56,41 @@ ProgHashUpTo(p, n) == IF n = 0 THEN Seed % P1 ELSE Mix(NodeCode(p[n]), ProgHashU
 ProgHash(p) == ProgHashUpTo(p, Len(p))
 
 \* ---------------------------------------------------------------- the menu
+\* keyword shapes of a call: argument tuples <<xs, kn, kx>>; keyword names in sorted order ("j" < "k")
+CallShapes(A0, A1, A2) ==
+  { <<xs, <<>>, <<>>>> : xs \in A0 \cup A1 \cup A2 }
+  \cup { <<<<>>, <<nm>>, kx>> : nm \in {"j", "k"}, kx \in A1 }
+  \cup { <<<<ab[1]>>, <<nm>>, <<ab[2]>>>> : nm \in {"j", "k"}, ab \in A2 }
+  \cup { <<<<>>, <<"j", "k">>, ab>> : ab \in A2 }
+
+\* how a container is used: plain, wrapped in delayed(...), wrapped in delayed(..., pure=True)
+WrapModes == { <<FALSE, FALSE>>, <<TRUE, FALSE>>, <<TRUE, TRUE>> }
+Wrapped(nd, wp) == [nd EXCEPT !.w = wp[1], !.pure = wp[2]]
+
+ContsOver(A1, A2, W) ==
+  { Wrapped(Cont(k, xs, FALSE), wp) : k \in {"list", "tuple", "set"}, xs \in A1 \cup A2, wp \in W }
+  \cup { Wrapped(Cont(k, xs, FALSE), wp) : k \in {"obj", "nt", "slice", "dictk"}, xs \in A2, wp \in W }
+  \cup { Wrapped(Cont("slice_to", xs, FALSE), wp) : xs \in A1, wp \in W }
+  \cup { Wrapped(DictC(<<"p">>, xs, FALSE), wp) : xs \in A1, wp \in W }
+  \cup { Wrapped(DictC(<<"p", "q">>, xs, FALSE), wp) : xs \in A2, wp \in W }
+
+\* value-directed: the reference semantics gives a (small) value, and dask can express the node
+NodeOK(nd, p, I, VV, DD) ==
+  LET v == EvalNode(nd, VV) IN
+  /\ ~IsErr(v) /\ Small(v)
+  /\ BuildableNode(nd, DD)
+  /\ (nd.op = "nout" => nd.i < p[nd.xs[1]].i)
+  \* slices hold ints; set members that are two different Delayed objects with one key cannot be
+  \* compared by Python (Delayed.__eq__ is lazy): not a program
+  /\ (nd.op = "cont" /\ nd.nm \in {"slice", "slice_to"} => \A i \in DOMAIN nd.xs : IsInt(VV[nd.xs[i]]))
+  /\ (nd.op = "cont" /\ nd.nm = "set" /\ Len(nd.xs) = 2 /\ nd.xs[1] # nd.xs[2]
+        => I[nd.xs[1]].arg # I[nd.xs[2]].arg /\ VV[nd.xs[1]] # VV[nd.xs[2]])
+
 Menu(p, I, pu, salt, rate) ==
   LET m  == Len(p)
       R  == 1..m
       VV == [j \in R |-> I[j].val]
       DD == [j \in R |-> I[j].d]
-      Dl == { j \in R : DD[j] }
       \* at the last level only operations that complete an exportable program are candidates: they use every
       \* node that is still unused (then every node feeds the last one) and are Delayed objects
       last   == NOps(p) + 1 = MaxOps
@@ -69,13 +101,11 @@ Menu(p, I, pu, salt, rate) ==
       A2 == Cov({ <<a, b>> : a \in R, b \in R })
       D1 == { xs \in A1 : DD[xs[1]] }                 \* first operand is a Delayed
       D2 == { xs \in A2 : DD[xs[1]] }
-      W  == IF last THEN {TRUE} ELSE BOOLEAN
+      W  == IF last THEN { wp \in WrapModes : wp[1] } ELSE WrapModes
       Fs == IF \E j \in R : p[j].op = "call" /\ p[j].nm = "f1" THEN {"f1", "f2"} ELSE {"f1"}
       named == \E j \in R : p[j].dkn # ""
       calls ==
-        { Call(f, xs, <<>>, <<>>, pu, "", 0) : f \in Fs, xs \in A0 \cup A1 \cup A2 }
-        \cup { Call(f, <<>>, <<"k">>, kx, pu, "", 0) : f \in Fs, kx \in A1 }
-        \cup { Call(f, <<ab[1]>>, <<"k">>, <<ab[2]>>, pu, "", 0) : f \in Fs, ab \in A2 }
+        { Call(f, sh[1], sh[2], sh[3], pu, "", 0) : f \in Fs, sh \in CallShapes(A0, A1, A2) }
         \cup (IF named THEN {} ELSE { Call("f1", xs, <<>>, <<>>, pu, "kk", 0) : xs \in A1 })
         \cup { Call("tup", xs, <<>>, <<>>, pu, "", Len(xs)) : xs \in A1 \cup A2 }
       access ==
@@ -84,31 +114,47 @@ Menu(p, I, pu, salt, rate) ==
         \cup { GetAttr(a[1], nm) : a \in { x \in D1 : VV[x[1]].t \in {"obj", "nt"} }, nm \in {"x", "y", "a", "b"} }
         \cup { Meth(a[1], "tag", <<>>, <<>>, <<>>, pu, "") : a \in { x \in D1 : VV[x[1]].t = "obj" } }
         \cup { Meth(ab[1], "tag", <<ab[2]>>, <<>>, <<>>, pu, "") : ab \in { x \in D2 : VV[x[1]].t = "obj" } }
-        \cup { Meth(ab[1], "tag", <<>>, <<"k">>, <<ab[2]>>, pu, "") : ab \in { x \in D2 : VV[x[1]].t = "obj" } }
+        \cup { Meth(ab[1], "tag", <<>>, <<nm>>, <<ab[2]>>, pu, "") : nm \in {"j", "k"}, ab \in { x \in D2 : VV[x[1]].t = "obj" } }
         \cup { Meth(ab[1], "count", <<ab[2]>>, <<>>, <<>>, pu, "") : ab \in { x \in D2 : IsSeq(VV[x[1]]) } }
         \cup { Bin(nm, ab[1], ab[2]) : nm \in {"add", "sub", "mul", "floordiv", "lt"}, ab \in { x \in A2 : DD[x[1]] \/ DD[x[2]] } }
         \cup { Un(nm, a[1]) : nm \in {"neg", "invert"}, a \in { x \in D1 : IsInt(VV[x[1]]) } }
-      conts ==
-        { Cont(k, xs, w) : k \in {"list", "tuple", "set"}, xs \in A1 \cup A2, w \in W }
-        \cup { Cont(k, xs, w) : k \in {"obj", "nt", "slice", "dictk"}, xs \in A2, w \in W }
-        \cup { Cont("slice_to", xs, w) : xs \in A1, w \in W }
-        \cup { DictC(<<"p">>, xs, w) : xs \in A1, w \in W }
-        \cup { DictC(<<"p", "q">>, xs, w) : xs \in A2, w \in W }
-      \* value-directed: the reference semantics gives a (small) value, and dask can express the node
-      ok(nd) == LET v == EvalNode(nd, VV) IN
-                /\ ~IsErr(v) /\ Small(v)
-                /\ BuildableNode(nd, DD)
-                /\ (nd.op = "nout" => nd.i < p[nd.xs[1]].i)
-                \* slices hold ints; set members that are two different Delayed objects with one key cannot be
-                \* compared by Python (Delayed.__eq__ is lazy): not a program
-                /\ (nd.op = "cont" /\ nd.nm \in {"slice", "slice_to"} => \A i \in DOMAIN nd.xs : IsInt(VV[nd.xs[i]]))
-                /\ (nd.op = "cont" /\ nd.nm = "set" /\ Len(nd.xs) = 2 /\ nd.xs[1] # nd.xs[2]
-                      => I[nd.xs[1]].arg # I[nd.xs[2]].arg /\ VV[nd.xs[1]] # VV[nd.xs[2]])
+      conts == ContsOver(A1, A2, W)
+      ok(nd) == NodeOK(nd, p, I, VV, DD)
       \* access operations are 4 times as likely as calls, containers half (their menu is the largest)
       sel(nd, r) == r >= 1000 \/ Mix(NodeCode(nd), salt) % 1000 < r
   IN { nd \in calls : sel(nd, rate) /\ ok(nd) }
      \cup { nd \in access : sel(nd, 4 * rate) /\ ok(nd) }
      \cup { nd \in conts : sel(nd, IF rate >= 1000 THEN rate ELSE (rate + 1) \div 2) /\ ok(nd) }
+
+\* ---------------------------------------------------------------- Mode = "pairs": the pure-key clause, exhaustively
+\* Universe of keyed pure things over the leaves only: every call shape (positional / keyword "j" / keyword "k" /
+\* both keywords, any order of the leaves, nout calls, a dask_key_name), and every container wrapped with
+\* pure=True.  A program = leaves, two members of ONE family of the universe (every unordered pair, the same
+\* member twice included), and a call that consumes both - so both are computed in one graph.
+PairUniverse(p, I) ==
+  LET nl == Len(p) - NOps(p)                 \* the leaves come first
+      R  == 1..nl
+      m  == Len(p)
+      VV == [j \in 1..m |-> I[j].val]
+      DD == [j \in 1..m |-> I[j].d]
+      A0 == {<<>>}
+      A1 == { <<a>> : a \in R }
+      A2 == { <<a, b>> : a \in R, b \in R }
+      calls == { Call("f1", sh[1], sh[2], sh[3], TRUE, "", 0) : sh \in CallShapes(A0, A1, A2) }
+               \cup { Call("f1", xs, <<>>, <<>>, TRUE, "kk", 0) : xs \in A1 }
+               \cup { Call("tup", xs, <<>>, <<>>, TRUE, "", Len(xs)) : xs \in A1 \cup A2 }
+      \* containers wrapped with pure=True: the sequence, mapping and dataclass paths of unpack_collections
+      conts == { nd \in ContsOver(A1, A2, { <<TRUE, TRUE>> }) : nd.nm \in {"list", "tuple", "dict", "obj"} }
+  IN [calls |-> { nd \in calls : NodeOK(nd, p, I, VV, DD) }, conts |-> { nd \in conts : NodeOK(nd, p, I, VV, DD) }]
+
+PairMenu(p, I) ==
+  LET U == PairUniverse(p, I)
+      k == NOps(p)
+      m == Len(p)
+  IN IF k = 0 THEN U.calls \cup U.conts
+     ELSE IF k = 1 THEN { nd \in (IF p[m].op = "call" THEN U.calls ELSE U.conts) :
+                            NodeCode(nd) >= NodeCode(p[m]) /\ (p[m].dkn = "" \/ nd.dkn = "" \/ nd = p[m]) }
+     ELSE { Call("f2", <<m - 1, m>>, <<>>, <<>>, TRUE, "", 0) }
 
 \* leaves and results nobody uses yet; every operation uses at most 3 nodes
 Unused(p) == Cardinality({ i \in 1..(Len(p) - 1) : \A j \in (i + 1)..Len(p) : i \notin NodeRefs(p[j]) })
@@ -119,20 +165,24 @@ ClassesI(p, I) ==
                       ELSE CHOOSE j \in 1..i : I[j].d /\ I[j].key = I[i].key
                                                /\ \A k \in 1..(j - 1) : ~(I[k].d /\ I[k].key = I[i].key)]
 Export(p, I) == [prog |-> p, vals |-> [i \in DOMAIN p |-> I[i].val], cls |-> ClassesI(p, I), dl |-> [i \in DOMAIN p |-> I[i].d]]
-Exportable(p, I) == NOps(p) >= 1 /\ I[Len(p)].d /\ Connected(p)
+Exportable(p, I) == IF Mode = "pairs" THEN NOps(p) = 3
+                    ELSE NOps(p) >= 1 /\ I[Len(p)].d /\ Connected(p)
 
-Init == /\ prog \in LeafConfigs
+\* pairs mode: the leaves 1, 2 with the first one a Delayed (so keywords and members can be Delayed-valued)
+PairLeafConfigs == { <<Const(IntV(1), TRUE), Const(IntV(2), w)>> : w \in BOOLEAN }
+
+Init == /\ prog \in (IF Mode = "pairs" THEN PairLeafConfigs ELSE LeafConfigs)
         /\ info = Info(prog)
         /\ hash = ProgHash(prog)
         /\ pure \in Pures
         /\ out = ""
 
 Next == /\ NOps(prog) < MaxOps
-        /\ \E nd \in Menu(prog, info, pure, hash, Rate[NOps(prog) + 1]) :
+        /\ \E nd \in (IF Mode = "pairs" THEN PairMenu(prog, info) ELSE Menu(prog, info, pure, hash, Rate[NOps(prog) + 1])) :
                 /\ prog' = Append(prog, nd)
                 /\ hash' = Mix(NodeCode(nd), hash)
                 /\ info' = Append(info, InfoAt(nd, Len(prog) + 1, info))
-                /\ CanFinish(prog')
+                /\ (Mode = "pairs" \/ CanFinish(prog'))
         /\ UNCHANGED pure
         /\ out' = IF Exportable(prog', info') THEN ToJson(Export(prog', info')) ELSE ""
 
